@@ -172,6 +172,9 @@ class World:
             space = BoxPortfolio([impl.Cash(), self.A, self.B], low=0.0, high=1.0)
         elif cfg["space"] == "boxlots":
             space = BoxPortfolio([self.A, self.B], low=0.0, high=float(N_ALLOC), as_weights=False)
+        elif cfg["space"] == "boxpos":
+            # bounds that exclude zero: the all-zero action is NOT a member of this space
+            space = BoxPortfolio([self.A], low=1.0 / 32, high=1.0)
         else:
             space = BoxPortfolio([self.A, self.B], low=0.0, high=1.0)
         if cfg.get("reuse_transmitter") is True:
@@ -251,6 +254,11 @@ class World:
             if cls == "ok":
                 return int(k)
             return {"shape": N_ALLOC, "above": N_ALLOC + 3, "below": -1, "nan": float("nan"), "index": 2.5}[cls]
+        if sp == "boxpos":
+            if cls == "ok":
+                return np.array([unit])
+            return {"shape": np.array([unit, 0.0]), "above": np.array([1.5]), "below": np.array([0.0]),
+                    "nan": np.array([float("nan")]), "index": np.array([[unit]])}[cls]
         lead = [0.5] if sp == "boxcash" else []
         if cls == "ok":
             return np.array(lead + [unit, 0.0])
